@@ -284,6 +284,17 @@ def run_trading(rnd, S, cfgk, intensity=1.0, script=None, analyser=False, ids=No
                         call.update(api="order_shares", args=(oid, q, None))
                         return api.order_shares(oid, q)
                     out.append(f5)
+        # a holding bought shortly before its share conversion (so that it is still there when the predecessor delists)
+        if S["trf"] and phase == "BAR" and "STOCK" in context.portfolio.accounts and reseed_key is None:
+            for pred in S["trf"]:
+                prec = next((x for x in S["stocks"] if x["id"] == pred), None)
+                if prec is not None and prec["delisted"] is not None and env.trading_dt.date() in S["cal"]:
+                    di = S["cal"].index(env.trading_dt.date())
+                    if di == S["cal"].index(prec["delisted"]) - 2:
+                        def f6(call, before, oid=pred, q=300 + 400 * (di % 3)):
+                            call.update(api="order_shares", args=(oid, q, None))
+                            return api.order_shares(oid, q)
+                        out.append(f6)
         # the whole holding sold on the ex-dividend date (receivable still pending)
         today8 = B.d8(env.trading_dt.date())
         if "STOCK" in context.portfolio.accounts:
